@@ -2851,6 +2851,12 @@ bool BW_MidiSequencer::parseSMF(FileAndMemReader &fr)
     if(smfFormat > 2)
         smfFormat = 1;
 
+    if(deltaTicks == 0)
+    {
+        m_errorString = fr.fileName() + ": Invalid format, the time division is zero!\n";
+        return false;
+    }
+
     rawTrackData.clear();
     rawTrackData.resize(TrackCount, std::vector<uint8_t>());
     m_invDeltaTicks = fraction<uint64_t>(1, 1000000l * static_cast<uint64_t>(deltaTicks));
